@@ -641,30 +641,28 @@ theorem stepWritePath_noPanic (path : List String) (ht : reportTargetOk env vm c
 
 variable {rec : VmCtx → Chunk → State → RunRes}
 
-theorem stepInclude_noPanic (name : String) (hr : RecOK rec) :
+theorem stepInclude_noPanic (name : String)
+    (hcall : ∀ tpl, env.template name = some tpl →
+      (rec { vm with template := tpl } tpl.chunk (includeState st)).isPanic = false) :
     (stepInclude rec env vm name pc st).isPanic = false := by
   unfold stepInclude
   split
   · rfl
-  · rename_i tpl _
-    have := hr.1 { vm with template := tpl } tpl.chunk (State.fresh (Scope.included st.scope))
+  · rename_i tpl htpl
+    have := hcall tpl htpl
     split <;> simp_all [RunRes.isPanic, StepRes.isPanic]
 
-theorem stepRenderBlock_noPanic (name : String) (hr : RecOK rec) :
+theorem stepRenderBlock_noPanic (name : String)
+    (hcall : ∀ first more, assoc name vm.template.blockLineage = some (first :: more) →
+      (rec vm first (enterBlock st name (first :: more))).isPanic = false) :
     (stepRenderBlock rec vm name pc st).isPanic = false := by
   unfold stepRenderBlock
   split
   · rfl
   · rfl
-  · simp only
-    split
-    · rfl
-    · rfl
-    · rename_i s heq
-      have := hr.1 _ _ _ ▸ congrArg RunRes.isPanic heq
-      simp [RunRes.isPanic] at this
-    · rfl
-    · rfl
+  · rename_i first more hl
+    have := hcall first more hl
+    split <;> simp_all [RunRes.isPanic, StepRes.isPanic]
 
 theorem blockPos_some {blocks : List (String × List Chunk × Nat)} {cur : String}
     (h : ∃ entry ∈ blocks, entry.1 = cur) : ∃ pos, blockPos blocks cur = some pos ∧ pos < blocks.length := by
@@ -686,8 +684,18 @@ theorem setLevel_isSome {blocks : List (String × List Chunk × Nat)} {pos : Nat
   unfold setLevel
   simp [h]
 
+/-- the nested call `super()` makes, if it gets that far -/
+def SuperCall (st : State) (vm : VmCtx) (P : VmCtx → Chunk → State → Prop) : Prop :=
+  ∀ cur pos name lineage level blockChunk blocks1,
+    st.currentBlockName = some cur → blockPos st.blocks cur = some pos →
+    st.blocks[st.blocks.length - 1 - pos]? = some (name, lineage, level) →
+    lineage[level + 1]? = some blockChunk → setLevel st.blocks pos (level + 1) = some blocks1 →
+    P vm blockChunk (enterSuper st blocks1)
+
 theorem stepSuper_noPanic (ht : reportTargetOk env vm c = true) (hown : c.hasSpan pc = true)
-    (hb : BlocksOK st) (hr : RecOK rec) :
+    (hb : BlocksOK st)
+    (hcall : SuperCall st vm fun vm' c' st' => (rec vm' c' st').isPanic = false ∧
+      ∀ st2, rec vm' c' st' = .done st2 → st2.blocks.length = st'.blocks.length) :
     (stepSuper rec env vm c pc st).isPanic = false := by
   unfold stepSuper
   split
@@ -697,40 +705,44 @@ theorem stepSuper_noPanic (ht : reportTargetOk env vm c = true) (hown : c.hasSpa
     rw [hpos]
     simp only
     have hidx : st.blocks.length - 1 - pos < st.blocks.length := by omega
-    rw [List.getElem?_eq_getElem hidx]
-    simp only
     split
-    · exact renderingError_noPanic ht (expandSpan_self hown) _
-    · obtain ⟨b1, hb1, hlen1⟩ := setLevel_isSome (st.blocks[st.blocks.length - 1 - pos]).2.2.succ hlt
-      simp only [Nat.succ_eq_add_one] at hb1
-      rw [hb1]
-      simp only
+    · rename_i hnone
+      rw [List.getElem?_eq_getElem hidx] at hnone; cases hnone
+    · rename_i nm lineage level hget
       split
-      · rename_i st2 heq
-        have hlen2 := hr.2 _ _ _ _ heq
-        simp only at hlen2
-        obtain ⟨b3, hb3, _⟩ := setLevel_isSome (blocks := st2.blocks) (pos := pos)
-          (st.blocks[st.blocks.length - 1 - pos]).2.2 (by omega)
-        rw [hb3]; rfl
-      · rfl
-      · rename_i s heq
-        have := hr.1 _ _ _ ▸ congrArg RunRes.isPanic heq
-        simp [RunRes.isPanic] at this
-      · rfl
-      · rfl
+      · exact renderingError_noPanic ht (expandSpan_self hown) _
+      · rename_i blockChunk hch
+        obtain ⟨b1, hb1, hlen1⟩ := setLevel_isSome (level + 1) hlt
+        rw [hb1]
+        simp only
+        obtain ⟨hnp, hlen⟩ := hcall cur pos nm lineage level blockChunk b1 hcur hpos hget hch hb1
+        split
+        · rename_i st2 heq
+          have hlen2 := hlen st2 heq
+          simp only [enterSuper] at hlen2
+          obtain ⟨b3, hb3, _⟩ := setLevel_isSome (blocks := st2.blocks) (pos := pos) level (by omega)
+          rw [hb3]; rfl
+        · rfl
+        · rename_i s heq
+          rw [heq] at hnp; simp [RunRes.isPanic] at hnp
+        · rfl
+        · rfl
 
 theorem stepCallFunction_noPanic (name : String) (ht : reportTargetOk env vm c = true)
     (hreg : name = "super" ∨ env.hasFunction name = true)
     (ha : 1 ≤ st.stack.length) (hown : c.hasSpan pc = true)
     (hkw : name ≠ "super" → ∀ v s, st.stack[0]? = some (v, s) → v.isMap = true)
-    (hbl : BlocksOK st) (hb : BuiltinsTotal env) (hr : RecOK rec) :
+    (hbl : BlocksOK st) (hb : BuiltinsTotal env)
+    (hcall : ∀ kw rest, st.stack = kw :: rest →
+      SuperCall { st with stack := rest } vm fun vm' c' st' => (rec vm' c' st').isPanic = false ∧
+        ∀ st2, rec vm' c' st' = .done st2 → st2.blocks.length = st'.blocks.length) :
     (stepCallFunction rec env vm c name pc st).isPanic = false := by
   unfold stepCallFunction
   rcases hs : st.stack with _ | ⟨⟨kw, sa⟩, rest⟩
   · simp [hs] at ha
   · simp only
     split
-    · exact stepSuper_noPanic ht hown hbl hr
+    · exact stepSuper_noPanic ht hown hbl (hcall _ _ hs)
     · rename_i hns
       have hf : env.hasFunction name = true := by
         rcases hreg with h | h
@@ -749,7 +761,9 @@ theorem stepCallFunction_noPanic (name : String) (ht : reportTargetOk env vm c =
 theorem stepComponent_noPanic (name : String) (hasBody : Bool) (ht : reportTargetOk env vm c = true)
     (hreg : (assoc name env.components).isSome = true ∨ (assoc name vm.template.components).isSome = true)
     (ha : (if hasBody then 2 else 1) ≤ st.stack.length) (hown : c.hasSpan pc = true)
-    (hkw : ∀ v s, st.stack[0]? = some (v, s) → v.isMap = true) (hr : RecOK rec) :
+    (hkw : ∀ v s, st.stack[0]? = some (v, s) → v.isMap = true)
+    (hcall : ∀ cdef cchunk bound, findComponent env vm name = some (cdef, cchunk) →
+      (rec { vm with depth := vm.depth + 1 } cchunk (componentState bound)).isPanic = false) :
     (stepComponent rec env vm c name hasBody pc st).isPanic = false := by
   unfold stepComponent
   rcases hs : st.stack with _ | ⟨⟨kw, sa⟩, rest⟩
@@ -780,16 +794,11 @@ theorem stepComponent_noPanic (name : String) (hasBody : Bool) (ht : reportTarge
     simp only
     split
     · exact renderingError_noPanic ht (expandSpan_self hown) _
-    · split
+    · rename_i bound _
+      split
       · rfl
-      · split
-        · rfl
-        · rfl
-        · rename_i s heq
-          have := hr.1 _ _ _ ▸ congrArg RunRes.isPanic heq
-          simp [RunRes.isPanic] at this
-        · rfl
-        · rfl
+      · have := hcall cdef cchunk bound hd
+        split <;> simp_all [RunRes.isPanic, StepRes.isPanic]
 
 end arms
 
